@@ -118,22 +118,35 @@ def run_one(args):
         res = int((ue(o, a).get("reserved") or {}).get("1", 0))
         if bal + res != init - used_total:
             problems.append(("accounting-identity", "subscriber %s after release: balance %d + reserved %d != %d - %d" % (a, bal, res, init, used_total)))
-        # ---- B: k concurrent first requests of one new subscriber
-        b = "imsi-2089300009%05d" % (idx * 10 + 2)
-        P.do({"op": "account", "supi": b, "rg": 1, "quota": "100000", "unitCost": "1"})
-        o = P.do({"op": "burst", "ms": 0, "burst": [{"op": "create", "body": body(b, 1, 0, 1, 10, cid=100 + i)} for i in range(k)]})
-        bursts += 1
-        reqs += k
-        refs = [s.get("location", "").rsplit("/", 1)[-1] for s in o["sub"] if s["status"] == 201]
-        if len(refs) != k or len(set(refs)) != k:
-            problems.append(("create-failed", "%d concurrent creates of a new subscriber: statuses %r, %d distinct references" % (k, [s["status"] for s in o["sub"]], len(set(refs)))))
-        for i, ref in enumerate(refs):
-            o = P.do({"op": "update", "ref": ref, "body": body(b, 2, 0, 2, 10, cid=100 + i)})
-            o2 = P.do({"op": "release", "ref": ref, "body": body(b, 3, 0, 3, 0, cid=100 + i)})
-            reqs += 2
-            if o["status"] != 200 or o2["status"] != 204:
-                problems.append(("session-lost", "session %s acknowledged to a concurrent create answers update %s, release %s" % (ref, o["status"], o2["status"])))
-                break
+        # ---- B: k concurrent first requests of one new subscriber (three subscribers), and k creates of a known
+        # subscriber arriving while one of its updates holds the lock
+        for rep in range(3):
+            b = "imsi-2089300009%05d" % (idx * 10 + 2 + rep)
+            P.do({"op": "account", "supi": b, "rg": 1, "quota": "100000", "unitCost": "1"})
+            burst = [{"op": "create", "body": body(b, 1, 0, 1, 10, cid=100 + i)} for i in range(k)]
+            ms = 0
+            if rep == 2:
+                # the subscriber exists and is busy: a long update (many containers) is started 2 ms before the creates
+                r0 = P.do({"op": "create", "body": body(b, 1, 0, 1, 10, cid=99)})["location"].rsplit("/", 1)[-1]
+                big = body(b, 2, 0, 2, 10, cid=99)
+                big["multipleUnitUsage"][0]["usedUnitContainer"] = [{"quotaManagementIndicator": "ONLINE_CHARGING", "totalVolume": 0, "localSequenceNumber": 10 + j} for j in range(150)]
+                burst = [{"op": "update", "ref": r0, "body": big}] + burst
+                ms = 2
+            o = P.do({"op": "burst", "ms": ms, "burst": burst})
+            bursts += 1
+            reqs += len(burst)
+            subs_c = [s for s, q in zip(o["sub"], burst) if q["op"] == "create"]
+            refs = [s.get("location", "").rsplit("/", 1)[-1] for s in subs_c if s["status"] == 201]
+            if len(refs) != k or len(set(refs)) != k:
+                problems.append(("create-failed", "%d concurrent creates of %s subscriber: statuses %r, %d distinct references"
+                                 % (k, "a busy" if rep == 2 else "a new", [s["status"] for s in subs_c], len(set(refs)))))
+            for i, ref in enumerate(refs):
+                o = P.do({"op": "update", "ref": ref, "body": body(b, 2, 0, 2, 10, cid=100 + i)})
+                o2 = P.do({"op": "release", "ref": ref, "body": body(b, 3, 0, 3, 0, cid=100 + i)})
+                reqs += 2
+                if o["status"] != 200 or o2["status"] != 204:
+                    problems.append(("session-lost", "session %s acknowledged to a concurrent create answers update %s, release %s" % (ref, o["status"], o2["status"])))
+                    break
         # ---- C: k different subscribers
         subs = ["imsi-20893000%07d" % (idx * 100 + 50 + i) for i in range(k)]
         for s in subs:
@@ -143,7 +156,11 @@ def run_one(args):
         if any(x["status"] != 201 for x in o["sub"]):
             problems.append(("create-failed", "creates of different subscribers: %r" % [x["status"] for x in o["sub"]]))
         o = P.do({"op": "burst", "ms": 0, "burst": [{"op": "update", "ref": r, "body": body(s, 2, 0, 2, 100)} for s, r in zip(subs, crefs)]})
-        o = P.do({"op": "burst", "ms": 0, "burst": [{"op": "update", "ref": r, "body": body(s, 3, 40, 3, 100)} for s, r in zip(subs, crefs)]})
+        # partial-record closures (a request-level trigger other than FINAL) of different subscribers at once
+        def partial(b):
+            b["triggers"] = [{"triggerType": "VOLUME_LIMIT", "triggerCategory": "IMMEDIATE_REPORT"}]
+            return b
+        o = P.do({"op": "burst", "ms": 0, "burst": [{"op": "update", "ref": r, "body": partial(body(s, 3, 40, 3, 100))} for s, r in zip(subs, crefs)]})
         if any(x["status"] != 200 for x in o["sub"]):
             problems.append(("request-failed", "updates of different subscribers: %r" % [x["status"] for x in o["sub"]]))
         o = P.do({"op": "burst", "ms": 0, "burst": [{"op": "release", "ref": r, "body": body(s, 4, 5, 4, 0)} for s, r in zip(subs, crefs)]})
